@@ -194,6 +194,10 @@ func (b *baseOracle) Stats() CaseStats                    { return b.st }
 // ---- engine ---------------------------------------------------------------
 
 type Engine struct {
+	// Realtime: the engine runs outside a synctest bubble on the real clock
+	// (confirmation of a real-time hang, see realtime.go); quiescence is then
+	// approximated by polling.
+	Realtime bool
 	C      *Case
 	R      router.Router
 	Log    *ringLog
@@ -282,9 +286,19 @@ func (e *Engine) Start() error {
 		s := &SimSess{Idx: i, Cfg: e.C.Sess[i], e: e, outq: make(chan sentRec, 4096), quit: make(chan struct{}), pendReq: map[wamp.ID]Op{}}
 		e.Sess = append(e.Sess, s)
 	}
-	synctest.Wait()
+	e.quiesce()
 	e.Baseline = router.VerifSnapshot(r)
 	return nil
+}
+
+// quiesce waits until the bubble is idle; on the real clock it just gives the
+// router a moment.
+func (e *Engine) quiesce() {
+	if e.Realtime {
+		time.Sleep(20 * time.Millisecond)
+		return
+	}
+	synctest.Wait()
 }
 
 // resolve turns a reference string into a run-time value (usually a wamp.ID).
@@ -701,8 +715,9 @@ func (e *Engine) execOp(idx int, op *Op, st *StepRec) {
 // settle waits for quiescence, drains all inboxes and records what happened.
 func (e *Engine) settle(st *StepRec) {
 	nudged := false
+	idle := 0
 	for round := 0; round < 50; round++ {
-		synctest.Wait()
+		e.quiesce()
 		progress := false
 		for _, s := range e.Sess {
 			if s.lk == nil {
@@ -735,6 +750,13 @@ func (e *Engine) settle(st *StepRec) {
 				st.Closed = append(st.Closed, s.Idx)
 				progress = true
 			}
+		}
+		if !progress && e.Realtime {
+			idle++
+			if idle < 3 {
+				continue
+			}
+			break
 		}
 		if !progress {
 			if e.Nudge && !nudged {
